@@ -117,13 +117,57 @@ guessed, what is not listed raises `Unsupported`):
 * `arm="U32ValueKind::ApngSequenceNumber"`: the body of that one arm of a `match` of the function is translated as a function of its own; the
   scalar values it takes from the enclosing function are the declared `args`; with `arm_value="ignore"` the value of the arm (a `State`) is not
   a result: leaving the arm normally is code 0.
+
+The step subset (group Adam7Iter: `Adam7Iterator::new`, `Iterator::next for Adam7Iterator`):
+
+* `self.f();` / `<struct local>.f();` as a STATEMENT, for a translated `fn f(&mut self, ..)` with declared outputs: the callee is applied to the
+  CURRENT values of the caller's fields of the same name and type (constants of the crate both declare under `consts` are passed on), its outputs
+  become their new values, a result is discarded (`let x = self.f(..);` binds it).  The translator records which fields every function
+  assigns and refuses the call when the callee assigns a field outside its declared outputs (the effect would be lost).
+* `ret_struct="Name", ret_fields={..}`: the function returns a struct local of that type; the result is the tuple of its fields in the order of
+  `ret_fields`, which must be exactly the fields (and types) of the struct declaration in the source.  `Self { .. }` is the `impl` type.
+* `step={"item": (Struct, {field: type})}` (with `self_type` = the struct whose method this is, `fields["self"]` = ALL its fields, checked against
+  the source, and `outputs` ⊇ the fields assigned): ONE STEP of a method `-> Option<Item>`.  Every path must end in `None` (tag 0),
+  `Some(Struct { .. })` (tag 1, exactly the declared fields) or the recursive call `self.<the function itself>()` on the same `self` AS THE VALUE OF
+  THE FUNCTION (tag 2: "advance" - the state the call starts from is the outputs); any other occurrence of the recursion is refused.  Result
+  `(tag, item fields .., outputs ..)`.  The translator also emits `<name>_rec fuel` / `<name>_rec_ok fuel`: the step repeated while the tag is 2,
+  at most `fuel` more times, every further step from the outputs of the one before (parameters that are not outputs are not assigned, so they
+  stay); a result with tag 2 means the fuel ran out.
+
+The size-level subset (group BufferSizes; kernels that declare `sizeof=[path, ..]`; an explicitly DECLARED abstraction):
+
+* A `Vec<u8>` / `&mut Vec<u8>` / `&[u8]` at a declared path (`self.data_stream`, a parameter `image_data`) is represented by its LENGTH only: the
+  pseudo-field `<path>.len : usize` (declared under `fields`, so it is a parameter and may be an output).  `v.len()`, `v.is_empty()` read it;
+  `v.truncate(n)` = `min len n`; `v.resize(n, _)` = `n` (`_ok`: n ≤ isize::MAX); `v.clear()` = 0; `v.extend_from_slice(s)` = `len + s.len()`
+  (`_ok`: ≤ isize::MAX); `v.copy_within(a..b | a.. | <range local>, d)` leaves it (`_ok`: a ≤ b ≤ len ∧ d + (b - a) ≤ len); these are only accepted
+  on a declared path - a NAME for a whole vector (`let v = &mut self.data_stream`) is refused.  Slices are locals with a length that never
+  changes: `let s = &v[a..b]` / `&v[a..]` / `&v[..b]` (`_ok`: a ≤ b ≤ len), `let (p, q) = v.split_at_mut(k)` / `split_at` (`_ok`: k ≤ len),
+  `v.as_slice()` / `as_mut_slice()`, `let p: &[u8] = p;`, `&[]` (length 0).  `let r = a..b;` is a range local (`r.len()` = `max 0 (b - a)`).
+  `Vec::new()` in a struct literal is length 0.  `const N: T = e;` inside a function is a `let`.
+* Nothing that depends on CONTENTS is guessed: `v[k]` on a slice is only accepted when declared, `bytevals={"row[0]": "filter_byte"}` - the byte is
+  then a `u8` parameter, `_ok` demands k < length, and the read is refused once the name was bound again (not that byte any more); calls that
+  only touch contents are declared in `ignore_calls` (`unfilter`, `self.debug_assert_invariants`, `self.state.ignore_adler32`: arguments
+  evaluated for `_ok`, no effect represented); `extern_vals={"self.state.is_done": "state_is_done"}` makes the answer of an outside call a Bool
+  parameter, `extern_calls={"self.state.read": {"ok": .., "values": [(name, type), ..], "error": E}}` makes
+  `let (a, b) = self.state.read(..).map_err(|e| <E>)?;` the parameters `ok`, values.. (failure = the declared error E, which the closure must name)
+  - NO contract of the outside call is assumed by the translator -, and each of them may occur only ONCE in the text of the function (one
+  parameter is one answer).  `assert!(c, ..)` is a panic site (`_ok` demands c); `debug_assert!` is skipped (release profile).
+* `returns_ref="self.data_stream"`: the function returns a reference to that vector; the result is the outputs alone.
+  Return type `Result<usize, _>` (cps kernels): the result is `(code, value of Ok | 0, outputs ..)`.
+* `loop="!self.state.is_done()"`: the body of the ONLY loop `while <that condition> { .. }` of the function (no `break` / `continue`) is translated
+  as a function of its own = one iteration; leaving the body normally is code 0; the loop condition itself is evaluated by whoever iterates.
+
+Group Text: `bytes_params=["buf"]` makes a `&[u8]` parameter a `List Int` (contents matter); `buf.iter().position(|&b| b == <byte literal>)` is the
+declared list operation `firstIndexOf <literal> buf : Option Int` (defined in the prelude of the generated file: index of the first element equal
+to the value; any other closure is refused); return type `Result<(&[u8], &[u8]), _>`: result `(code, slice, slice)` with
+`&v[a..b]` = `List.drop a (List.take b v)` and `_ok`: a ≤ b ≤ length (empty lists on an error).
 """
 import os, re, sys, json
 
 ROOT = os.path.join(os.path.dirname(os.path.abspath(__file__)), "..")
 REPO = os.environ.get("PNG_REPO", "/repo")
 OUTDIR = os.path.join(ROOT, "lean", "PngVerif", "Generated")
-GROUPS = ["Common", "Filter", "Adam7", "Stream", "Zlib", "Enums", "ReaderGeom", "EncoderSetters", "Parsers", "ParsersApng"]   # a group may call functions of the groups before it
+GROUPS = ["Common", "Filter", "Adam7", "Stream", "Zlib", "Enums", "ReaderGeom", "EncoderSetters", "Parsers", "ParsersApng", "Adam7Iter", "BufferSizes", "Text"]   # a group may call functions of the groups before it
 
 # the part of a `Reader` the geometry functions read: the transformation flags (one Bool per flag of the `bitflags!` declaration), the
 # current `Info` (`self.info()`, a struct the translator treats as given: colour type, depth, `trns.is_some()`)
@@ -146,6 +190,15 @@ IHDR_FIELDS = {"width": "u32", "height": "u32", "bit_depth": "BitDepth", "color_
 CICP = {"color_primaries": "u8", "transfer_function": "u8", "matrix_coefficients": "u8", "is_video_full_range_image": "bool"}
 MDCV = dict([("chromaticities_%s" % f_, "u32") for f_ in CHRM] + [("max_luminance", "u32"), ("min_luminance", "u32")])
 CLLI = {"max_content_light_level": "u32", "max_frame_average_light_level": "u32"}
+# the whole state of `Adam7Iterator` (adam7.rs), in the order the generated functions take / return it
+ADAM7_STATE = {"width": "u32", "height": "u32", "current_pass": "u8", "line_width": "u32", "lines": "u32", "line": "u32"}
+# size-level kernels (see "The size-level subset"): `UnfilteringBuffer` and `ZlibStream` with their byte vectors represented by their lengths
+UBUF = dict(file="src/decoder/unfiltering_buffer.rs", impl="UnfilteringBuffer", fixed=True, sizeof=["self.data_stream"],
+            fields={"self.data_stream": {"len": "usize"}, "self": {"prev_start": "usize", "current_start": "usize"}},
+            ignore_calls=["self.debug_assert_invariants"])
+UBUF_OUT = ["self.data_stream.len", "self.prev_start", "self.current_start"]
+ZBUF = dict(file="src/decoder/zlib.rs", impl="ZlibStream", fixed=True, sizeof=["self.out_buffer"],
+            fields={"self.out_buffer": {"len": "usize"}, "self": {"out_pos": "usize", "read_pos": "usize", "max_total_output": "usize"}})
 # field-less enums whose discriminants are read from the source: (file, name)
 ENUMS = [("src/common.rs", "ColorType"), ("src/common.rs", "BitDepth"), ("src/common.rs", "BytesPerPixel"), ("src/common.rs", "Unit"),
          ("src/common.rs", "DisposeOp"), ("src/common.rs", "BlendOp"), ("src/common.rs", "SrgbRenderingIntent"), ("src/filter.rs", "RowFilter")]
@@ -314,6 +367,52 @@ KERNELS = [
          errors=["UnexpectedRestartOfDataChunkSequence"],
          fields={"self": {"ready_for_idat_chunks": "bool", "have_idat": "bool"}}, outputs=["self.have_idat"],
          **{k_: v_ for k_, v_ in PARSER.items() if k_ != "body"}),
+    # ---- group Adam7Iter: `Adam7Iterator::new` and ONE STEP of `Iterator::next for Adam7Iterator` (see "The step subset" in the docstring)
+    dict(group="Adam7Iter", lean="Adam7Iterator_new", file="src/adam7.rs", impl="Adam7Iterator", fn="new", fixed=True,
+         structs={"Adam7Iterator": "src/adam7.rs"}, ret_struct="Adam7Iterator", ret_fields=ADAM7_STATE),
+    dict(group="Adam7Iter", lean="Adam7Iterator_next", file="src/adam7.rs", impl="Iterator for Adam7Iterator", fn="next", fixed=True,
+         self_type="Adam7Iterator", fields={"self": ADAM7_STATE}, structs={"Adam7Iterator": "src/adam7.rs", "Adam7Info": "src/adam7.rs"},
+         step={"item": ("Adam7Info", {"pass": "u8", "line": "u32", "width": "u32"})},
+         outputs=["self.line", "self.lines", "self.line_width", "self.current_pass"]),
+    # ---- group BufferSizes: the index arithmetic of `UnfilteringBuffer` and `ZlibStream` at the size level
+    dict(group="BufferSizes", lean="UnfilteringBuffer_new", fn="new", structs={"UnfilteringBuffer": "src/decoder/unfiltering_buffer.rs"},
+         ret_struct="UnfilteringBuffer", ret_fields={"data_stream": "Vec<u8>", "prev_start": "usize", "current_start": "usize"},
+         **dict(UBUF, fields={}, sizeof=[])),
+    dict(group="BufferSizes", lean="UnfilteringBuffer_reset_prev_row", fn="reset_prev_row", outputs=UBUF_OUT, **UBUF),
+    dict(group="BufferSizes", lean="UnfilteringBuffer_curr_row_len", fn="curr_row_len", **UBUF),
+    dict(group="BufferSizes", lean="UnfilteringBuffer_as_mut_vec", fn="as_mut_vec", returns_ref="self.data_stream", outputs=UBUF_OUT, **UBUF),
+    dict(group="BufferSizes", lean="UnfilteringBuffer_unfilter_curr_row", fn="unfilter_curr_row", cps=True, errors=["UnknownFilterMethod"],
+         bytevals={"row[0]": "filter_byte"}, outputs=UBUF_OUT,
+         **dict(UBUF, ignore_calls=["self.debug_assert_invariants", "unfilter"])),
+    dict(group="BufferSizes", lean="ZlibStream_prepare_vec_for_appending", fn="prepare_vec_for_appending", consts={"CHUNK_BUFFER_SIZE": "usize"},
+         outputs=["self.out_buffer.len", "self.max_total_output"], **ZBUF),
+    dict(group="BufferSizes", lean="ZlibStream_transfer_finished_data", fn="transfer_finished_data",
+         outputs=["self.read_pos", "image_data.len"],
+         **dict(ZBUF, sizeof=["self.out_buffer", "image_data"], fields=dict(ZBUF["fields"], image_data={"len": "usize"}))),
+    dict(group="BufferSizes", lean="ZlibStream_compact_out_buffer_if_needed", fn="compact_out_buffer_if_needed",
+         outputs=["self.out_buffer.len", "self.out_pos", "self.read_pos"], **ZBUF),
+    # `decompress`: the bookkeeping around the external inflater (`self.state`): `is_done()` is a Bool parameter, `read(..)` is answered by
+    # the parameters `read_ok`, `read_in`, `read_out` (its two counts); result (code, value of Ok, outputs ..)
+    dict(group="BufferSizes", lean="ZlibStream_decompress", fn="decompress", cps=True, errors=["CorruptFlateStream"],
+         consts={"CHUNK_BUFFER_SIZE": "usize"},
+         extern_vals={"self.state.is_done": "state_is_done"},
+         extern_calls={"self.state.read": {"ok": "read_ok", "values": [("read_in", "usize"), ("read_out", "usize")], "error": "CorruptFlateStream"}},
+         ignore_calls=["self.state.ignore_adler32"],
+         outputs=["self.out_buffer.len", "self.out_pos", "self.read_pos", "self.max_total_output", "self.started", "image_data.len"],
+         **dict(ZBUF, sizeof=["self.out_buffer", "image_data", "data"],
+                fields={"self.out_buffer": {"len": "usize"},
+                        "self": {"out_pos": "usize", "read_pos": "usize", "max_total_output": "usize", "started": "bool", "ignore_adler32": "bool"},
+                        "image_data": {"len": "usize"}, "data": {"len": "usize"}})),
+    # one iteration of the loop `while !self.state.is_done()` of `finish_compressed_chunks` (`is_done()` inside the body: a parameter)
+    dict(group="BufferSizes", lean="ZlibStream_finish_iter", fn="finish_compressed_chunks", loop="!self.state.is_done()", cps=True,
+         errors=["CorruptFlateStream"], consts={"CHUNK_BUFFER_SIZE": "usize"},
+         extern_vals={"self.state.is_done": "state_is_done"},
+         extern_calls={"self.state.read": {"ok": "read_ok", "values": [("read_in", "usize"), ("read_out", "usize")], "error": "CorruptFlateStream"}},
+         outputs=["self.out_buffer.len", "self.out_pos", "self.read_pos", "self.max_total_output", "image_data.len"],
+         **dict(ZBUF, sizeof=["self.out_buffer", "image_data"], fields=dict(ZBUF["fields"], image_data={"len": "usize"}))),
+    # ---- group Text: `split_keyword` (the keyword / value split and the keyword-length guard all three text parsers use)
+    dict(group="Text", lean="split_keyword", file="src/decoder/stream.rs", impl="StreamingDecoder", fn="split_keyword", cps=True, fixed=True,
+         errors=["MissingNullSeparator", "InvalidKeywordSize"], bytes_params=["buf"]),
 ]
 
 INT_TYPES = {
@@ -651,6 +750,20 @@ class Parser:
                     ty = self.type_()
                 self.eat("=")
                 e = self.expr()
+                if self.at(".") and self.at(".", 1):
+                    self.eat(); self.eat()          # `let r = a..b;`
+                    e = ("range", e, self.expr())
+                self.eat(";")
+                stmts.append(("let", name, ty, e))
+                continue
+            if self.at("const") and self.peek(1)[0] == "id" and self.at(":", 2):
+                # a local constant `const NAME: T = e;`: a `let` with a type annotation
+                self.eat()
+                name = self.eat()[1]
+                self.eat(":")
+                ty = self.type_()
+                self.eat("=")
+                e = self.expr()
                 self.eat(";")
                 stmts.append(("let", name, ty, e))
                 continue
@@ -668,6 +781,17 @@ class Parser:
                 if self.at(";"):
                     self.eat()
                 stmts.append(("return", e, "explicit"))
+                continue
+            if self.at("assert") and self.at("!", 1) and self.at("(", 2):
+                # `assert!(cond, "message", ..);`: a panic site; the message arguments are not evaluated unless it fails
+                self.eat(); self.eat(); self.eat("(")
+                cond = self.inner(self.expr)
+                depth = 1
+                while depth:
+                    t = self.eat()[1]
+                    depth += 1 if t == "(" else (-1 if t == ")" else 0)
+                self.eat(";")
+                stmts.append(("assert", cond))
                 continue
             if self.at("debug_assert") or self.at("debug_assert_eq") or self.at("debug_assert_ne"):
                 # debug_assert!(..): not part of the value; skipped (its condition is not an obligation here)
@@ -756,6 +880,8 @@ class Parser:
         if lvl == len(self.LEVELS):
             return self.cast()
         lhs = self.expr(lvl + 1, stmt)
+        if stmt and lhs[0] in ("if", "match", "block"):
+            return lhs      # a block-like expression at the start of a statement ends there (Rust's rule): `if c { .. } &mut x` is two things
         while self.peek()[0] == "op" and self.peek()[1] in self.LEVELS[lvl]:
             op = self.eat()[1]
             rhs = self.expr(lvl + 1)
@@ -790,7 +916,11 @@ class Parser:
         self.eat("(")
         a = []
         while not self.at(")"):
-            a.append(self.expr())
+            e = self.expr()
+            if self.at(".") and self.at(".", 1):
+                self.eat(); self.eat()              # a range argument `a..` / `a..b`
+                e = ("range", e, None if (self.at(",") or self.at(")")) else self.expr())
+            a.append(e)
             if self.at(","):
                 self.eat()
         self.eat(")")
@@ -822,7 +952,15 @@ class Parser:
                     self.eat(); self.eat(); self.eat()
                     e = ("fullslice", e)
                     continue
-                idx = self.inner(self.expr)
+                idx = None
+                if not (self.at(".") and self.at(".", 1)):
+                    idx = self.inner(self.expr)
+                if self.at(".") and self.at(".", 1):
+                    self.eat(); self.eat()          # `v[a..b]`, `v[a..]`, `v[..b]`
+                    hi = None if self.at("]") else self.inner(self.expr)
+                    self.eat("]")
+                    e = ("slice", e, idx, hi)
+                    continue
                 self.eat("]")
                 e = ("index", e, idx)
             else:
@@ -843,6 +981,9 @@ class Parser:
             return ("lit", int(m.group(1).replace("_", "")), m.group(3))
         if v == "(":
             return self.inner(self.paren)
+        if v == "[" and k == "op" and self.at("]", 1):
+            self.eat(); self.eat()
+            return ("emptyslice",)      # `[]` / `&[]`
         return self.primary_()
 
     def paren(self):
@@ -917,6 +1058,8 @@ class Parser:
             self.eat("|")
             params = []
             while not self.at("|"):
+                if self.at("&"):
+                    self.eat()          # `|&b|`: the element by value
                 n = self.eat()[1]
                 t = None
                 if self.at(":"):
@@ -1111,6 +1254,7 @@ class Tr:
         self.fden = {}              # f64 variable -> denominator (a power of two): the variable holds the numerator
         self.retk = []              # continuations of `return` inside inlined fns of the reader subset (None = value mode)
         self.rkind = None           # reader subset: "result" / "resultdecoded" / "decoded" / "unit"
+        self.assigned = set()       # dotted paths of the struct fields this function assigns (directly or through a translated callee)
 
     # --- types
     def is_int(self, t):
@@ -1233,6 +1377,14 @@ class Tr:
                 self.free_field(path, f)
         for c, t in self.k.get("consts", {}).items():
             self.add_param(c, t, ("const", c))
+        for key, pn in self.k.get("bytevals", {}).items():
+            self.add_param(pn, "u8", ("byteval", key))
+        for key, pn in self.k.get("extern_vals", {}).items():
+            self.add_param(pn, "bool", ("extern", key))
+        for key, d in self.k.get("extern_calls", {}).items():
+            self.add_param(d["ok"], "bool", ("extern", key))
+            for pn, ty in d["values"]:
+                self.add_param(pn, ty, ("extern", key))
 
     # --- expressions: returns (lean term, type, ok term or None)
     def conj(self, *oks):
@@ -1291,7 +1443,7 @@ class Tr:
                 if isinstance(self.env[n], tuple) and self.env[n][0] == "alias":
                     path = self.env[n][1]
                     return ("ref", path), ("ref", self.path_kind(path), path), None
-                if isinstance(self.env[n], tuple) and self.env[n][0] in ("payload", "structlocal", "array"):
+                if isinstance(self.env[n], tuple) and self.env[n][0] in ("payload", "structlocal", "array", "sized", "rangelocal"):
                     raise Unsupported("%s used as a value" % n)
                 return self.lname(n), self.env[n], None
             if n in self.k.get("consts", {}):
@@ -1336,6 +1488,10 @@ class Tr:
             n, t = self.free_field(base, x[2])
             return n, t, None
         if k == "index":
+            if self.k.get("sizeof") is not None:
+                r_ = self.index_sized(x)
+                if r_ is not None:
+                    return r_
             if x[1][0] == "var" and isinstance(self.env.get(x[1][1]), tuple) and self.env[x[1][1]][0] == "array":
                 _, ety, n = self.env[x[1][1]]
                 if x[2][0] != "lit" or not (0 <= x[2][1] < n):
@@ -1754,6 +1910,8 @@ class Tr:
                     if q not in self.k.get("flags", {}) or self.k["flags"][q][0] != ex["flagtypes"][og[1]]:
                         raise Unsupported("%s needs the flags %s" % (ln, q))
                     v = dict(self.flag_params(q))[og[2]]
+                elif og[0] in ("free", "const") and og[1] in self.k.get("consts", {}) and self.k["consts"][og[1]] == pt_:
+                    v = self.e(("var", og[1]))[0]       # a constant of the crate both kernels take as a parameter
                 else:
                     raise Unsupported("%s has a parameter (%s) that cannot be passed on" % (ln, pn_))
                 vals.append(v)
@@ -1786,6 +1944,14 @@ class Tr:
             if name == "is_empty":
                 return "decide (%s.length = 0)" % self.lname(recv[1]), "bool", None
             raise Unsupported("method %s on a byte vector" % name)
+        if name == "position" and len(args) == 1 and recv[0] == "method" and recv[2] == "iter" and not recv[3] and \
+                recv[1][0] == "var" and self.env.get(recv[1][1]) == "bytes":
+            # `v.iter().position(|&b| b == <literal>)`: the declared list operation `firstIndexOf` (prelude of the group Text)
+            cl = args[0]
+            if not (cl[0] == "closure" and cl[2][0] == "bin" and cl[2][1] == "==" and cl[2][2] == ("var", cl[1]) and cl[2][3][0] == "lit"
+                    and 0 <= cl[2][3][1] <= 255):
+                raise Unsupported("position(..) with a closure that is not |&b| b == <byte literal>")
+            return "(firstIndexOf %d %s)" % (cl[2][3][1], self.lname(recv[1][1])), ("opt", "usize"), None
         if name == "to_be_bytes" and not args:
             v, t, o = self.e(recv)
             if not self.is_int(t):
@@ -1795,6 +1961,10 @@ class Tr:
 
     def method(self, x, want):
         recv, name, args = x[1], x[2], x[3]
+        if self.k.get("sizeof") is not None:
+            r_ = self.method_sized(x)
+            if r_ is not None:
+                return r_
         if self.cps():
             r_ = self.method_cps(x, want)
             if r_ is not None:
@@ -2058,6 +2228,8 @@ class Tr:
     def finish(self):
         """value of a body that ends without a value: the final values of the declared output fields"""
         outs = self.k.get("outputs")
+        if self.k.get("loop") and self.cps() and not self.in_local:
+            return self.final_tuple("0", None)      # the body of the loop was left normally (the next thing is the loop condition)
         if not outs:
             return "()", "unit", None
         return "(%s)" % ", ".join(self.output_values()), "outputs", None
@@ -2176,6 +2348,8 @@ class Tr:
         """`Name { f: e, .., ..Default::default() }` -> [(field, lean value, type, ok)] for ALL fields of the struct as declared in
         the source, in the order of evaluation (written fields first, then the base)"""
         name, items, base = x[1], x[2], x[3]
+        if name == "Self":
+            name = self.k["impl"]
         decl = self.struct_decl(name)
         given = {}
         out = []
@@ -2183,6 +2357,10 @@ class Tr:
             if f not in decl or f in given:
                 raise Unsupported("field %s of %s" % (f, name))
             ty = decl[f]
+            if ty == "Vec<u8>" and self.k.get("sizeof") is not None and ex == ("call", ["Vec", "new"], []):
+                given[f] = True
+                out.append((f, "0", "Vec<u8>", None))       # size level: an empty vector has length 0
+                continue
             if not (ty in INT_TYPES or ty == "bool" or ty in self.enums):
                 raise Unsupported("field %s: %s of %s" % (f, ty, name))
             v, t, o = self.e(ex, ty)
@@ -2272,6 +2450,10 @@ class Tr:
         if not ss:
             return self.finish()
         s, rest = ss[0], ss[1:]
+        if self.k.get("sizeof") is not None:
+            r_ = self.stmt_sized(s, rest, want)
+            if r_ is not None:
+                return r_
         if self.cps():
             r_ = self.stmt_cps(s, rest, want)
             if r_ is not None:
@@ -2332,6 +2514,7 @@ class Tr:
                 raise Unsupported("assignment to undeclared field %s.%s" % (obj, f))
             fty = (self.k.get("fields", {}).get(obj, {}).get(f) or self.k.get("opts", {}).get(obj, {}).get(f))
             name = self.pname(obj, f)
+            self.assigned.add(obj + "." + f)
             v, t, o = self.ev(s[2], fty)
             if t == "f64":
                 raise Unsupported("float stored in a field")
@@ -2365,6 +2548,12 @@ class Tr:
                 # the nested `if` of an `else if` chain that is a STATEMENT (something follows, or the chain has no final
                 # `else`): control continues with what follows
                 return self.stmts([("expr", s[1])] + rest, want)
+            if self.k.get("returns_ref") and self.valdepth == 0 and not self.in_local and self.resolve_path(s[1]) == self.k["returns_ref"]:
+                # the function returns a reference to a declared byte vector of its `self`: nothing but the declared outputs
+                return self.finish()
+            if (self.k.get("step") or self.k.get("ret_struct")) and self.valdepth == 0 and not self.in_local and \
+                    s[1][0] not in ("if", "match", "block"):
+                return self.step_return(s[1])
             if self.cps() and not self.k.get("plain") and self.valdepth == 0 and s[1][0] not in ("if", "match", "block"):
                 if self.retk and self.retk[-1] is not None:
                     return self.retk[-1](s[1])
@@ -2401,10 +2590,440 @@ class Tr:
                 if ao or bo:
                     ok = "(if %s then %s else %s)" % (c, ao or "true", bo or "true")
                 return "(if %s then %s else %s)" % (c, a, b), (at_ if at_ != "lit" else bt), self.conj(co, ok)
+            if ex[0] == "method" and (not self.cps() or self.k.get("sizeof") is not None):
+                r_ = self.call_outputs_stmt(ex, rest, want)
+                if r_ is not None:
+                    return r_
             if not rest:
                 return self.e(ex, want)
             raise Unsupported("expression statement without effect")
         raise Unsupported("statement %s" % s[0])
+
+
+    # ================================================================================================================
+    # the step subset (group Adam7Iter): a `&mut self` method whose whole receiver state is declared, that may call translated
+    # `&mut self` methods of the same struct, and whose only recursion is `self.<itself>()` as the value of the function
+    # ================================================================================================================
+    def out_path(self, o):
+        """an `outputs` entry (`self.line` or the old form `self_line`) as (object path, field)"""
+        if o.endswith("?"):
+            raise Unsupported("output %s" % o)
+        return tuple(o.rsplit(".", 1)) if "." in o else tuple(o.split("_", 1))
+
+    def call_outputs_stmt(self, ex, rest, want, bind=None):
+        """the statement `self.f(args);` / `<struct local>.f();` for a translated `fn f(&mut self, ..)` whose declared outputs are fields of
+        its `self` (or lengths of byte-vector arguments, size level): the callee reads the CURRENT values of the caller's fields of the
+        same name and type, and its outputs become their new values; a result of the callee is discarded (this is a statement).  The
+        callee must not assign any field outside its outputs.  None = not such a call."""
+        recv, name, args = ex[1], ex[2], ex[3]
+        local, path = None, None
+        if recv[0] == "var" and isinstance(self.env.get(recv[1]), tuple) and self.env[recv[1]][0] == "structlocal":
+            local = recv[1]
+            owner = self.env[local][1]
+        else:
+            path = self.resolve_path(recv)
+            if path != "self":
+                return None
+            owner = self.k.get("self_type", self.k["impl"])
+        for ln, (impl, fn, pn, pt, rt, ex_) in self.sigs.items():
+            if ex_["rawimpl"] != owner or fn != name or not ex_["outputs"]:
+                continue
+            rnames = [r_[0] for r_ in ex_["rparams"]]
+            if len(args) != len(rnames) or (local is not None and args):
+                raise Unsupported("arity of %s" % ln)
+            if not (rt == "unit" or self.is_int(rt) or rt == "bool"):
+                raise Unsupported("call of %s, whose result is %s, as a statement" % (ln, rt))
+            if bind is not None and rt == "unit":
+                raise Unsupported("the unit result of %s bound to a name" % ln)
+
+            def tr(q):
+                """a path of the callee as a path of the caller"""
+                if q == "self" or q.startswith("self."):
+                    if local is not None and q != "self":
+                        raise Unsupported("%s reads %s of a struct local" % (ln, q))
+                    return "self" + q[4:]
+                head = q.split(".")[0]
+                if head in rnames:
+                    ap = self.resolve_path(args[rnames.index(head)])
+                    if ap is None or ap not in (self.k.get("sizeof") or []):
+                        raise Unsupported("argument %s of %s is not a declared byte vector" % (head, ln))
+                    return ap + q[len(head):]
+                raise Unsupported("%s uses %s, which the caller cannot provide" % (ln, q))
+
+            outs = [self.out_path(o) for o in ex_["outlist"]]
+            if not set(ex_["assigned"]) <= set("%s.%s" % o for o in outs):
+                raise Unsupported("%s assigns a field that is not one of its declared outputs" % ln)
+            if local is not None:
+                loc = self.env[local][2]
+            vals, oks = [], []
+            for pn_, pt_, og in zip(pn, pt, ex_["origins"]):
+                if og[0] == "field" and local is not None:
+                    tr(og[1])
+                    if og[2] not in loc or loc[og[2]][1] != pt_:
+                        raise Unsupported("field %s of %s has not the type %s takes" % (og[2], local, ln))
+                    vals.append(loc[og[2]][0])
+                elif og[0] == "field":
+                    q = tr(og[1])
+                    if ("copied", q) in self.env:
+                        raise Unsupported("call of %s while a copy of %s is in use" % (ln, q))
+                    v, t = self.free_field(q, og[2])
+                    if t != pt_:
+                        raise Unsupported("field %s.%s has type %s here and %s in %s" % (q, og[2], t, pt_, ln))
+                    vals.append(v)
+                elif og[0] == "arg":
+                    v, t, o = self.ev(args[ex_["argpos"][og[1]]], pt_)
+                    if not isinstance(v, str) or (self.is_int(t) and self.is_int(pt_) and t != pt_):
+                        raise Unsupported("argument of %s" % ln)
+                    vals.append(v); oks.append(o)
+                elif og[0] in ("free", "const") and og[1] in self.k.get("consts", {}) and self.k["consts"][og[1]] == pt_:
+                    vals.append(self.e(("var", og[1]))[0])
+                else:
+                    raise Unsupported("%s has a parameter (%s) that cannot be passed on" % (ln, pn_))
+            self.used_groups.add(ex_["group"])
+            self.ntmp = getattr(self, "ntmp", 0) + 1
+            tmp = "call__%d" % self.ntmp
+            shift = 0 if rt == "unit" else 1
+            n = len(outs) + shift
+            binds = []
+            for i, (obj, f) in enumerate(outs):
+                ftypes = ex_["kfields"].get(obj, {})
+                if f not in ftypes:
+                    raise Unsupported("output %s.%s of %s has no declared type" % (obj, f, ln))
+                j = i + shift
+                proj = tmp if n == 1 else "%s%s" % (tmp, ".2" * j + (".1" if j < n - 1 else ""))
+                if local is not None:
+                    if obj != "self" or f not in loc or loc[f][1] != ftypes[f]:
+                        raise Unsupported("field %s of %s has not the type %s gives it" % (f, local, ln))
+                    binds.append((loc[f][0], proj))
+                else:
+                    q = tr(obj)
+                    n_, t_ = self.free_field(q, f)
+                    if t_ != ftypes[f]:
+                        raise Unsupported("field %s.%s has type %s here and %s in %s" % (q, f, t_, ftypes[f], ln))
+                    self.assigned.add(q + "." + f)
+                    binds.append((self.pname(q, f), proj))
+                    self.env[self.pname(q, f)] = t_
+            if bind is not None:
+                # `let x = self.f(..);`: the result of the callee (the first component)
+                binds.append((self.lname(bind), "%s.1" % tmp))
+                self.env[bind] = rt
+            call = "(%s %s)" % (ln, " ".join(vals))
+            callok = "%s_ok %s" % (ln, " ".join(vals))
+            rv, rt_, ro = self.stmts(rest, want)
+            pre = "(let %s := %s; " % (tmp, call) + "".join("(let %s := %s; " % b_ for b_ in binds)
+            close = ")" * (1 + len(binds))
+            return pre + rv + close, rt_, self.conj(*(oks + [callok, (pre + ro + close) if ro else None]))
+        return None
+
+    def step_return(self, e):
+        """the value of a `step` / `ret_struct` kernel at the end of a path"""
+        if self.k.get("ret_struct"):
+            # `this` (a struct local of the declared type): the tuple of its fields in the order of `ret_fields`
+            name, decl = self.k["ret_struct"], self.k["ret_fields"]
+            if not (e[0] == "var" and isinstance(self.env.get(e[1]), tuple) and self.env[e[1]][0] == "structlocal" and self.env[e[1]][1] == name):
+                raise Unsupported("result that is not a local %s" % name)
+            src = self.struct_decl(name)
+            loc = self.env[e[1]][2]
+            if set(src) != set(decl) or any(src[f] != decl[f] or loc[f][1] != decl[f] for f in decl):
+                raise Unsupported("the fields of %s in the source and the declared `ret_fields` differ" % name)
+            return "(%s)" % ", ".join(loc[f][0] for f in decl), ("structret", name), None
+        iname, idecl = self.k["step"]["item"]
+        zeros = ["0"] * len(idecl)
+        ok = None
+        if e == ("var", "None"):
+            comps = ["0"] + zeros
+        elif e[0] == "call" and e[1] == ["Some"] and len(e[2]) == 1 and e[2][0][0] == "structlit" and e[2][0][1] == iname:
+            items, base = e[2][0][2], e[2][0][3]
+            src = self.struct_decl(iname)
+            if base is not None or set(src) != set(idecl) or any(src[f] != idecl[f] for f in idecl) or \
+                    sorted(f for f, _ in items) != sorted(idecl):
+                raise Unsupported("the item %s { .. } does not have exactly the declared fields" % iname)
+            vals, oks = {}, []
+            for f, ex in items:
+                v, t, o = self.ev(ex, idecl[f])
+                if not isinstance(v, str) or not self.is_int(idecl[f]) or t not in (idecl[f], "lit"):
+                    raise Unsupported("field %s of the item has type %s" % (f, t))
+                vals[f] = v
+                oks.append(o)
+            comps = ["1"] + [vals[f] for f in idecl]
+            ok = self.conj(*oks)
+        elif e[0] == "method" and e[1] == ("var", "self") and e[2] == self.k["fn"] and not e[3] and self.self_ty is None:
+            # the recursive call `self.next()` as the value of the function: the step ends here with the tag "advance"; the state the
+            # call would start from is the current state (the outputs)
+            comps = ["2"] + zeros
+        else:
+            raise Unsupported("result of a step kernel that is not None / Some(%s { .. }) / self.%s()" % (iname, self.k["fn"]))
+        return "(%s)" % ", ".join(comps + self.output_values()), ("withoutputs", "step"), ok
+
+
+    # ================================================================================================================
+    # the size-level subset (group BufferSizes): under the DECLARED abstraction `sizeof=[path, ..]` a `Vec<u8>` / `&mut Vec<u8>` at one of
+    # these paths is represented by its LENGTH only (the pseudo-field `<path>.len : usize`); slices taken from it are locals with a
+    # length.  Contents are not represented: a read of a byte's value must be declared (`bytevals`), calls that only touch contents
+    # must be declared (`ignore_calls`).  Reached only for kernels that declare `sizeof`; what is not listed raises `Unsupported`.
+    # ================================================================================================================
+    ISIZE_MAX = 2 ** 63 - 1
+
+    def sized_of(self, x):
+        """("path", path, lean term of its length) for a declared byte vector, ("local", name, lean term) for a local slice, or None"""
+        if self.k.get("sizeof") is None:
+            return None
+        if x[0] == "var" and isinstance(self.env.get(x[1]), tuple) and self.env[x[1]][0] == "sized":
+            return ("local", x[1], self.env[x[1]][1])
+        p = self.resolve_path(x)
+        if p is not None and p in self.k["sizeof"]:
+            return ("path", p, self.free_field(p, "len")[0])
+        return None
+
+    def usize_arg(self, x):
+        v, t, o = self.ev(x, "usize")
+        if not isinstance(v, str) or t not in ("usize", "lit"):
+            raise Unsupported("an index / length of type %s" % (t,))
+        return v, o
+
+    def sized_value(self, ex):
+        """(lean term of the length, ok) of an expression that is a byte vector / slice: a declared path, a local slice,
+        `v.as_slice()` / `v.as_mut_slice()`, `v[a..b]` / `v[a..]` / `v[..b]` (a panic site: `_ok` demands a ≤ b ≤ len); or None"""
+        if self.k.get("sizeof") is None:
+            return None
+        sz = self.sized_of(ex)
+        if sz:
+            return sz[2], None
+        if ex == ("emptyslice",):
+            return "0", None
+        if ex[0] == "method" and ex[2] in ("as_mut_slice", "as_slice") and not ex[3]:
+            return self.sized_value(ex[1])
+        if ex[0] == "slice":
+            b = self.sized_value(ex[1])
+            if b is None:
+                return None
+            n, bo = b
+            lo, lok = self.usize_arg(ex[2]) if ex[2] is not None else ("0", None)
+            hi, hok = self.usize_arg(ex[3]) if ex[3] is not None else (n, None)
+            return "(%s - %s)" % (hi, lo), self.conj(bo, lok, hok, "decide (%s ≤ %s ∧ %s ≤ %s)" % (lo, hi, hi, n))
+        return None
+
+    def bind_size(self, target, val, rest, want, ok):
+        """the length of a declared vector (`("path", p)`) / of a local slice (`("local", name)`) becomes `val`"""
+        if target[0] == "path":
+            if ("copied", target[1]) in self.env:
+                raise Unsupported("%s changes while a copy of it is in use" % target[1])
+            self.assigned.add(target[1] + ".len")
+            return self.bind(self.pname(target[1], "len"), val, "usize", rest, want, ok)
+        name = target[1]
+        if isinstance(self.env.get(name), tuple) and self.env[name][0] == "sized":
+            self.env[("stale", name)] = True        # a declared byte value `name[k]` was a byte of the OLD slice
+        ln = "%s__len" % self.lname(name)
+        self.env[name] = ("sized", ln)
+        rv, rt, ro = self.stmts(rest, want)
+        return "(let %s := %s; %s)" % (ln, val, rv), rt, self.conj(ok, "(let %s := %s; %s)" % (ln, val, ro) if ro else None)
+
+    def range_arg(self, x, n):
+        """(start, end, ok) of a range argument `a..b` / `a..` (end = the length n) / a range local"""
+        if x[0] == "range":
+            lo, lok = self.usize_arg(x[1])
+            hi, hok = self.usize_arg(x[2]) if x[2] is not None else (n, None)
+            return lo, hi, self.conj(lok, hok)
+        if x[0] == "var" and isinstance(self.env.get(x[1]), tuple) and self.env[x[1]][0] == "rangelocal":
+            return self.env[x[1]][1], self.env[x[1]][2], None
+        raise Unsupported("range argument")
+
+    def ignored_key(self, ex):
+        """the key under which a call may be declared in `ignore_calls`: `f` / `a::f` for a function, `<path>.m` for a method (a struct local
+        of the impl type counts as `self`)"""
+        if ex[0] == "call":
+            return "::".join(ex[1])
+        if ex[0] == "method":
+            recv = ex[1]
+            if recv[0] == "var" and isinstance(self.env.get(recv[1]), tuple) and self.env[recv[1]][0] == "structlocal" and \
+                    self.env[recv[1]][1] == self.k["impl"]:
+                return "self.%s" % ex[2]
+            rp = self.resolve_path(recv)
+            return "%s.%s" % (rp, ex[2]) if rp else None
+        return None
+
+    def once(self, key):
+        """the call `key` (`self.state.read`) occurs exactly once in the text of the function"""
+        pat = r"\b" + r"\s*\.\s*".join(re.escape(q) for q in key.split(".")) + r"\s*\("
+        if len(re.findall(pat, self.k["_body"])) != 1:
+            raise Unsupported("%s is called more than once (one parameter is one answer)" % key)
+
+    def stmt_sized(self, s, rest, want):
+        """statements of the size-level subset; None = not one of them"""
+        if s[0] == "lettuple" and s[2][0] == "try":
+            inner, errarg = s[2][1], None
+            if inner[0] == "method" and inner[2] == "map_err" and len(inner[3]) == 1:
+                inner, errarg = inner[1], inner[3][0]
+            key = self.ignored_key(inner) if inner[0] == "method" else None
+            d = self.k.get("extern_calls", {}).get(key)
+            if d is not None:
+                # `let (a, b) = self.state.read(..).map_err(|e| <error>)?;`: the call is answered by the outside world - a Bool `ok` and
+                # the values as PARAMETERS (no contract assumed here) - and its failure is the declared error
+                self.once(key)
+                if len(s[1]) != len(d["values"]):
+                    raise Unsupported("%s gives %d values" % (key, len(d["values"])))
+                if errarg is not None and d["error"] not in re.findall(r"[A-Za-z_]\w*", json.dumps(errarg)):
+                    raise Unsupported("the error of %s is not the declared %s" % (key, d["error"]))
+                oks = []
+                for a in inner[3]:
+                    sv = self.sized_value(a)
+                    if sv is not None:
+                        oks.append(sv[1])
+                    else:
+                        v, t, o = self.ev(a)
+                        oks.append(o)
+                self.add_param(d["ok"], "bool", ("extern", key))
+                for pn, ty in d["values"]:
+                    self.add_param(pn, ty, ("extern", key))
+                errv = self.err_exit(self.errcode(d["error"]), want)
+                env0 = dict(self.env)
+                r = self.stmts([("let", n_, ty, ("rawlean", pn, ty)) for n_, (pn, ty) in zip(s[1], d["values"])] + rest, want)
+                self.env = env0
+                v, t, o = self.ite(d["ok"], r, errv)
+                return v, t, self.conj(*(oks + [o]))
+        if s[0] == "assert":
+            c, ct, co = self.ev(s[1], "bool")
+            if ct != "bool":
+                raise Unsupported("assert! of a non-bool")
+            v, t, o = self.stmts(rest, want)
+            return v, t, self.conj(co, c, o)
+        if s[0] == "let" and s[3][0] == "method" and s[2] is None:
+            r_ = self.call_outputs_stmt(s[3], rest, want, bind=s[1])
+            if r_ is not None:
+                return r_
+        if s[0] == "let":
+            name, ann, ex = s[1], s[2], s[3]
+            if ex[0] == "range":
+                # `let r = a..b;`: a range value (its `len()` is `end - start`, 0 when start > end)
+                if ex[2] is None:
+                    raise Unsupported("open range bound to a name")
+                lo, lok = self.usize_arg(ex[1])
+                hi, hok = self.usize_arg(ex[2])
+                ls, le = "%s__start" % self.lname(name), "%s__end" % self.lname(name)
+                self.env[name] = ("rangelocal", ls, le)
+                rv, rt, ro = self.stmts(rest, want)
+                pre = "(let %s := %s; (let %s := %s; " % (ls, lo, le, hi)
+                return pre + rv + "))", rt, self.conj(lok, hok, (pre + ro + "))") if ro else None)
+            if self.sized_of(ex) is not None and self.sized_of(ex)[0] == "path":
+                raise Unsupported("a name for a whole byte vector (its length could change behind the name)")
+            sv = self.sized_value(ex)
+            if sv is not None:
+                if ann is not None and ann != ("slice", "u8"):
+                    raise Unsupported("type %s of a slice" % (ann,))
+                return self.bind_size(("local", name), sv[0], rest, want, sv[1])
+            return None
+        if s[0] == "lettuple" and s[2][0] == "method" and s[2][2] in ("split_at", "split_at_mut") and len(s[2][3]) == 1 and len(s[1]) == 2:
+            b = self.sized_value(s[2][1])
+            if b is None:
+                return None
+            k_, kok = self.usize_arg(s[2][3][0])
+            self.ntmp = getattr(self, "ntmp", 0) + 1
+            tn, tk = "split__n%d" % self.ntmp, "split__k%d" % self.ntmp
+            for nm in s[1]:
+                if isinstance(self.env.get(nm), tuple) and self.env[nm][0] == "sized":
+                    self.env[("stale", nm)] = True
+            la, lb = "%s__len" % self.lname(s[1][0]), "%s__len" % self.lname(s[1][1])
+            self.env[s[1][0]] = ("sized", la)
+            self.env[s[1][1]] = ("sized", lb)
+            rv, rt, ro = self.stmts(rest, want)
+            pre = "(let %s := %s; (let %s := %s; (let %s := %s; (let %s := (%s - %s); " % (tn, b[0], tk, k_, la, tk, lb, tn, tk)
+            return pre + rv + "))))", rt, self.conj(b[1], kok, "decide (%s ≤ %s)" % (k_, b[0]), (pre + ro + "))))") if ro else None)
+        if s[0] == "expr" and s[1][0] in ("call", "method"):
+            ex = s[1]
+            key = self.ignored_key(ex)
+            if key is not None and key in self.k.get("ignore_calls", []):
+                oks = []
+                for a in (ex[2] if ex[0] == "call" else ex[3]):
+                    sv = self.sized_value(a)
+                    if sv is not None:
+                        oks.append(sv[1])
+                    elif a[0] == "var" and self.env.get(a[1]) == "opaque":
+                        continue
+                    else:
+                        v, t, o = self.ev(a)
+                        oks.append(o)
+                v, t, o = self.stmts(rest, want)
+                return v, t, self.conj(*(oks + [o]))
+        if s[0] == "expr" and s[1][0] == "method":
+            recv, name, args = s[1][1], s[1][2], s[1][3]
+            sz = self.sized_of(recv)
+            if sz is None:
+                return None
+            n = sz[2]
+            if name in ("truncate", "resize", "clear", "extend_from_slice"):
+                if sz[0] != "path":
+                    raise Unsupported("%s on a slice" % name)
+                ok = None
+                if name == "truncate" and len(args) == 1:
+                    v, ok = self.usize_arg(args[0])
+                    new = "(min %s %s)" % (n, v)
+                elif name == "resize" and len(args) == 2:
+                    v, ok = self.usize_arg(args[0])
+                    fv, ft, fo = self.ev(args[1], "u8")
+                    if ft not in ("u8", "lit"):
+                        raise Unsupported("resize with a fill value of type %s" % (ft,))
+                    new, ok = v, self.conj(ok, fo, "decide (%s ≤ %d)" % (v, self.ISIZE_MAX))
+                elif name == "clear" and not args:
+                    new = "0"
+                elif name == "extend_from_slice" and len(args) == 1:
+                    sv = self.sized_value(args[0])
+                    if sv is None:
+                        raise Unsupported("extend_from_slice of something that is not a slice")
+                    new = "(%s + %s)" % (n, sv[0])
+                    ok = self.conj(sv[1], "decide (%s ≤ %d)" % (new, self.ISIZE_MAX))
+                else:
+                    raise Unsupported("arguments of %s" % name)
+                return self.bind_size(("path", sz[1]), new, rest, want, ok)
+            if name == "copy_within" and len(args) == 2:
+                # the length does not change; panics unless start ≤ end ≤ len and dest ≤ len - (end - start)
+                lo, hi, rok = self.range_arg(args[0], n)
+                d, dok = self.usize_arg(args[1])
+                ok = self.conj(rok, dok, "decide (%s ≤ %s ∧ %s ≤ %s ∧ %s + (%s - %s) ≤ %s)" % (lo, hi, hi, n, d, hi, lo, n))
+                v, t, o = self.stmts(rest, want)
+                return v, t, self.conj(ok, o)
+            raise Unsupported("method %s on a byte vector of a size-level kernel" % name)
+        return None
+
+    def method_sized(self, x):
+        """value methods of the size-level subset; None = not one of them"""
+        recv, name, args = x[1], x[2], x[3]
+        key = self.ignored_key(x)
+        if key is not None and key in self.k.get("extern_vals", {}) and not args:
+            # a Bool the outside world answers (`self.state.is_done()`): a parameter; it may be asked once only, because one parameter
+            # is one answer
+            self.once(key)
+            pn = self.k["extern_vals"][key]
+            self.add_param(pn, "bool", ("extern", key))
+            return pn, "bool", None
+        if recv[0] == "var" and isinstance(self.env.get(recv[1]), tuple) and self.env[recv[1]][0] == "rangelocal":
+            if name == "len" and not args:
+                _, ls, le = self.env[recv[1]]
+                return "(max 0 (%s - %s))" % (le, ls), "usize", None
+            raise Unsupported("method %s on a range" % name)
+        sv = self.sized_value(recv)
+        if sv is None:
+            return None
+        if name == "len" and not args:
+            return sv[0], "usize", sv[1]
+        if name == "is_empty" and not args:
+            return "decide (%s = 0)" % sv[0], "bool", sv[1]
+        raise Unsupported("method %s on a byte vector / slice used as a value" % name)
+
+    def index_sized(self, x):
+        """`v[k]` on a slice: the VALUE of a byte - only as a declared parameter (`bytevals={"row[0]": "filter_byte"}`); `_ok`: k < length"""
+        if not (x[1][0] == "var" and x[2][0] == "lit"):
+            return None
+        sz = self.sized_of(x[1])
+        if sz is None or sz[0] != "local":
+            return None
+        key = "%s[%d]" % (x[1][1], x[2][1])
+        if key not in self.k.get("bytevals", {}):
+            raise Unsupported("the value of the byte %s is read but not declared (`bytevals`)" % key)
+        if ("stale", x[1][1]) in self.env:
+            raise Unsupported("%s is read after %s was bound again: not the declared byte any more" % (key, x[1][1]))
+        pn = self.k["bytevals"][key]
+        self.add_param(pn, "u8", ("byteval", key))
+        return pn, "u8", "decide (%d < %s)" % (x[2][1], sz[2])
 
     # ================================================================================================================
     # the byte-reader subset (group Parsers): chunk parsers of `StreamingDecoder`.  Everything here is reached only for
@@ -2578,11 +3197,16 @@ class Tr:
                 raise Unsupported("payload arity of Decoded::%s" % p[-1])
         return [str(tag)] + vals + ["0"] * (self.ev_width() - len(vals)), self.conj(*oks)
 
-    def final_tuple(self, code, ev):
-        """the result of the function at an exit: [code,] [event tag, payload ..,] final values of the declared outputs"""
+    def final_tuple(self, code, ev, val=None):
+        """the result of the function at an exit: [code,] [value of `Ok(value)`, 0 on an error,] [event tag, payload ..,] final values of
+        the declared outputs"""
         comps = []
-        if self.rkind in ("result", "resultdecoded"):
+        if self.rkind in ("result", "resultdecoded", "resultval", "resultslices"):
             comps.append(code)
+        if self.rkind == "resultval":
+            comps.append(val if val is not None else "0")
+        if self.rkind == "resultslices":
+            comps += list(val) if val is not None else ["([] : List Int)", "([] : List Int)"]
         if self.k.get("events") is not None:
             comps += ev if ev is not None else ["0"] * (1 + self.ev_width())
         comps += self.output_values()
@@ -2599,6 +3223,29 @@ class Tr:
         if e[0] == "call" and e[1] == ["Err"]:
             v, _, o = self.e(e)
             r = self.final_tuple(v, None)
+            return r[0], r[1], o
+        if e[0] == "call" and e[1] == ["Ok"] and len(e[2]) == 1 and self.rkind == "resultslices":
+            # `Ok((&v[a..b], &v[c..d]))`: two slices of a byte vector (panic sites: `_ok` demands a ≤ b ≤ len)
+            tp = e[2][0]
+            if tp[0] != "tuple" or len(tp[1]) != 2:
+                raise Unsupported("Ok(..) of something that is not a pair of slices")
+            vals, oks = [], []
+            for sl in tp[1]:
+                if not (sl[0] == "slice" and sl[1][0] == "var" and self.env.get(sl[1][1]) == "bytes"):
+                    raise Unsupported("component of the result that is not a slice of a byte vector")
+                ln = self.lname(sl[1][1])
+                n = "(Int.ofNat %s.length)" % ln
+                lo, lok = (self.usize_arg(sl[2]) if sl[2] is not None else ("0", None))
+                hi, hok = (self.usize_arg(sl[3]) if sl[3] is not None else (n, None))
+                oks += [lok, hok, "decide (%s ≤ %s ∧ %s ≤ %s)" % (lo, hi, hi, n)]
+                vals.append("(List.drop (Int.toNat %s) (List.take (Int.toNat %s) %s))" % (lo, hi, ln))
+            r = self.final_tuple("0", None, vals)
+            return r[0], r[1], self.conj(*oks)
+        if e[0] == "call" and e[1] == ["Ok"] and len(e[2]) == 1 and self.rkind == "resultval":
+            v, t, o = self.ev(e[2][0], "usize")
+            if not isinstance(v, str) or t not in ("usize", "lit"):
+                raise Unsupported("Ok(..) of a value of type %s" % (t,))
+            r = self.final_tuple("0", None, v)
             return r[0], r[1], o
         if e[0] == "call" and e[1] == ["Ok"] and len(e[2]) == 1 and self.rkind in ("result", "resultdecoded"):
             if self.rkind == "result":
@@ -3157,7 +3804,7 @@ def parse_params(text, impl, enums):
         if p in ("self", "&self", "&mut self", "mut self"):
             out.append(("self", impl))
             continue
-        m = re.match(r"(?:mut\s+)?(\w+)\s*:\s*&?\s*(?:mut\s+)?([\w<>' ]+)$", p)
+        m = re.match(r"(?:mut\s+)?(\w+)\s*:\s*&?\s*(?:mut\s+)?([\w<>' ]+|\[u8\])$", p)
         if not m:
             # a newtype pattern `Name(x): Name` (e.g. `ChunkType(type_): ChunkType`): x is the wrapped value
             m2 = re.match(r"(\w+)\s*\(\s*(\w+)\s*\)\s*:\s*(\w+)$", p)
@@ -3223,7 +3870,19 @@ def translate_all():
                     raise Unsupported("arm %s of %s not found (or not unique)" % (k["arm"], k["fn"]))
                 body = body[ms_[0].end() - 1:match_brace(body, ms_[0].end() - 1)]
                 params_text = "&mut self"
+            if k.get("loop"):
+                # the body of the one loop `while <cond> { .. }` of the function, translated as a function of its own (ONE iteration; the
+                # condition is evaluated by the caller of the step)
+                pat_ = r"\bwhile\s+" + r"\s*".join(re.escape(t_) for t_ in re.findall(r"\w+|[^\w\s]", k["loop"])) + r"\s*\{"
+                ms_ = list(re.finditer(pat_, body))
+                if len(ms_) != 1 or len(re.findall(r"\b(?:while|loop|for)\b", body)) != 1:
+                    raise Unsupported("the loop `while %s` of %s not found (or not the only loop)" % (k["loop"], k["fn"]))
+                body = body[ms_[0].end() - 1:match_brace(body, ms_[0].end() - 1)]
+                if re.search(r"\b(?:break|continue)\b", body):
+                    raise Unsupported("break / continue in the loop body")
+                params_text = "&mut self"
             params = parse_params(params_text, impl_ty, enums)
+            k["_body"] = body
             tr = Tr(k, enums, sigs, load)
             tr.self_ty = impl_ty
             lean_params = []
@@ -3264,6 +3923,12 @@ def translate_all():
                     nargs += 1
                 elif n in k.get("fields", {}):
                     continue
+                elif t == "[u8]" and n in k.get("bytes_params", []):
+                    # a `&[u8]` parameter whose CONTENTS matter: a `List Int` (bytes 0..255), as the chunk body of the reader subset
+                    tr.env[n] = "bytes"
+                    lean_params.append((tr.lname(n), "bytes"))
+                    origins.append(("arg", nargs))
+                    nargs += 1
                 elif n in k.get("payload", {}) and k["payload"][n][0] == t:
                     # an enum whose variants carry one struct each: a tag (index of the variant in the declaration) and the
                     # declared fields of the declared variants
@@ -3292,6 +3957,11 @@ def translate_all():
             mret = re.match(r"impl\s+Iterator<Item\s*=\s*(\w+)>", ret)
             if mret:
                 ret = mret.group(1)
+            if k.get("returns_ref"):
+                # `-> &mut Vec<u8>`: a reference to the declared byte vector; the result is represented by the outputs alone
+                if re.sub(r"\s+", "", ret) not in ("&mutVec<u8>", "&Vec<u8>", "&[u8]", "&mut[u8]"):
+                    raise Unsupported("return type %s of a kernel that returns a reference to a byte vector" % ret)
+                ret = ""
             ret_ty = Parser(lex(ret)).type_() if ret else "unit"
             if ret_ty == "Self":
                 ret_ty = k["impl"]
@@ -3301,12 +3971,32 @@ def translate_all():
                 ret_ty = newtype_scalar(load(k["newtypes"][ret_ty]), ret_ty) or ret_ty
             stmts = Parser(lex(body)).block()
             if k.get("cps"):
-                tr.rkind = {"result": "result", ("resultof", "Decoded"): "resultdecoded", "Decoded": "decoded", "unit": "unit"}.get(ret_ty)
+                if isinstance(ret_ty, tuple) and len(ret_ty) == 2 and ret_ty[0] == "resultof" and is_tup(ret_ty[1]):
+                    tr.rkind = "resultslices" if list(ret_ty[1][1]) == [("slice", "u8"), ("slice", "u8")] else None
+                else:
+                    tr.rkind = {"result": "result", ("resultof", "Decoded"): "resultdecoded", "Decoded": "decoded", "unit": "unit",
+                                ("resultof", "usize"): "resultval"}.get(ret_ty)
                 if tr.rkind is None and not k.get("plain"):
                     raise Unsupported("return type %s of a reader kernel" % (ret_ty,))
                 for en_ in list(k.get("effects", {}).values()) + list(k.get("defaults", {}).values()):
                     tr.env[en_] = "bool"
+            if k.get("step"):
+                # the declared state must be the WHOLE receiver (nothing the step reads or writes is hidden), the result `Option<item>`
+                sdecl = struct_fields(load(k["structs"][k["self_type"]]), k["self_type"])
+                if dict(sdecl) != dict(k["fields"]["self"]):
+                    raise Unsupported("the fields of %s in the source and the declared state differ" % k["self_type"])
+                if ret_ty not in (("opt", "Item"), ("opt", k["step"]["item"][0])):
+                    raise Unsupported("return type %s of a step kernel" % (ret_ty,))
+            if k.get("ret_struct") and ret_ty != k["ret_struct"]:
+                raise Unsupported("return type %s of a kernel that returns %s" % (ret_ty, k["ret_struct"]))
             val, ty, ok = tr.stmts(stmts, ret_ty)
+            if k.get("step"):
+                if not (isinstance(ty, tuple) and ty == ("withoutputs", "step")):
+                    raise Unsupported("a path through the step does not end in None / Some(item) / the recursive call")
+                if not tr.assigned <= set(k["outputs"]):
+                    raise Unsupported("the step assigns a field that is not a declared output: %s" % ", ".join(sorted(tr.assigned - set(k["outputs"]))))
+            if k.get("ret_struct") and ty != ("structret", k["ret_struct"]):
+                raise Unsupported("a path through the function does not end in the struct local")
             if k.get("cps"):
                 for en_ in reversed(list(k.get("effects", {}).values()) + list(k.get("defaults", {}).values())):
                     val = "(let %s := false; %s)" % (en_, val)
@@ -3315,16 +4005,22 @@ def translate_all():
             origins = origins + [tr.origin.get(p[0], ("free", p[0])) for p in tr.params]
             extra = dict(group=k["group"], rawimpl=k["impl"], origins=origins, outputs=bool(k.get("outputs")),
                          flagtypes={q: v[0] for q, v in k.get("flags", {}).items()},
-                         rparams=rparams, argpos=argpos, outlist=list(k.get("outputs", [])), errors=list(k.get("errors", [])))
+                         rparams=rparams, argpos=argpos, outlist=list(k.get("outputs", [])), errors=list(k.get("errors", [])),
+                         assigned=sorted(tr.assigned), kfields=k.get("fields", {}))
             sigs[k["lean"]] = (k["impl"] if k["impl"] in enums else None, k["fn"], [p[0] for p in all_params], [p[1] for p in all_params], ret_ty, extra)
             lean_ret = "Bool" if ret_ty == "bool" else ("Option Int" if is_opt(ret_ty) else (lean_type(ret_ty) if is_tup(ret_ty) else "Int"))
             if ty == "outputs":
                 lean_ret = " × ".join("Int" for _ in k["outputs"])
             elif k.get("outputs") and ret_ty != "unit":
                 lean_ret = " × ".join([lean_ret] + [("Bool" if t_ == "bool" else "Int") for t_ in tr.output_types()])
+            if k.get("step"):
+                lean_ret = " × ".join(["Int"] * (1 + len(k["step"]["item"][1]) + len(k["outputs"])))
+            if k.get("ret_struct"):
+                lean_ret = " × ".join(("Bool" if t_ == "bool" else "Int") for t_ in k["ret_fields"].values())
             binder = lambda p: "(%s : %s)" % (p[0], "Bool" if p[1] == "bool" else "Int")
             if k.get("cps") and not k.get("plain"):
-                comps_ = (["Int"] if tr.rkind in ("result", "resultdecoded") else []) + \
+                comps_ = (["Int"] if tr.rkind in ("result", "resultdecoded", "resultval", "resultslices") else []) + (["Int"] if tr.rkind == "resultval" else []) + \
+                         (["List Int", "List Int"] if tr.rkind == "resultslices" else []) + \
                          (["Int"] * (1 + tr.ev_width()) if k.get("events") is not None else []) + [lean_type(t_) for t_ in tr.output_types()]
                 lean_ret = " × ".join(comps_) if comps_ else "Unit"
             if k.get("cps"):
@@ -3332,10 +4028,11 @@ def translate_all():
             sig = " ".join(binder(p) for p in all_params)
             tname = lambda t_: ("Option<%s>" % t_[1]) if is_opt(t_) else t_
             doc = "/-- `%s%s` (%s)%s, parameters %s -/" % ((k["impl"] + "::") if k["impl"] else "", k["fn"], k["file"],
-                                                           (", the arm `%s`" % k["arm"]) if k.get("arm") else "",
+                                                           (", the arm `%s`" % k["arm"]) if k.get("arm") else
+                                                           ((", one iteration of `while %s`" % k["loop"]) if k.get("loop") else ""),
                                                            ", ".join("%s : %s" % (p[0], tname(p[1])) for p in all_params))
             defs.append((k["group"], "%s\ndef %s %s : %s :=\n  %s\n\n/-- no overflow, no division by zero, no panic on this run -/\ndef %s_ok %s : Bool :=\n  %s\n" % (
-                doc, k["lean"], sig, lean_ret, val, k["lean"], sig, ok or "true")))
+                doc, k["lean"], sig, lean_ret, val, k["lean"], sig, ok or "true") + (step_unfolding(k, tr, all_params, lean_ret) if k.get("step") else "")))
             results.append((k["group"], k["lean"]))
             used.setdefault(k["group"], set()).update(tr.used_groups)
         except (Unsupported, IndexError, KeyError, ValueError, TypeError, AttributeError, AssertionError, OSError) as ex:
@@ -3344,6 +4041,33 @@ def translate_all():
             # reports the kernel as no longer tied by translation (tie by correspondence only)
             defs.append((k["group"], ("KEEP", k["lean"])))
     return defs, results, broken, enums, used
+
+
+def step_unfolding(k, tr, all_params, lean_ret):
+    """the recursion of a step kernel: `<name>_rec fuel` follows the recursive call site (tag 2) at most `fuel` times, starting every
+    further step from the state the step before it left (the outputs; the other parameters are not assigned and stay)"""
+    name = k["lean"]
+    names = [p[0] for p in all_params]
+    n = 1 + len(k["step"]["item"][1]) + len(k["outputs"])
+    newarg = {}
+    for i, o in enumerate(k["outputs"]):
+        obj, f = tr.out_path(o)
+        j = 1 + len(k["step"]["item"][1]) + i
+        if tr.pname(obj, f) not in names:
+            raise Unsupported("output %s is not a parameter" % o)
+        newarg[tr.pname(obj, f)] = "r%s" % (".2" * j + (".1" if j < n - 1 else ""))
+    tys = " → ".join(["Nat"] + [("Bool" if p[1] == "bool" else "Int") for p in all_params])
+    args = " ".join(names)
+    pats = ", ".join(names)
+    nxt = " ".join(newarg.get(a, a) for a in names)
+    return ("\n/-- the recursion of `%s`: the call `self.%s()` at the end of a step (tag 2) is followed at most `fuel` times; a result with tag 2 "
+            "means the recursion was still going on when the fuel ran out -/\n"
+            "def %s_rec : %s → %s\n  | 0, %s => %s %s\n  | fuel + 1, %s => (let r := %s %s; if r.1 = 2 then %s_rec fuel %s else r)\n\n"
+            "/-- every step of that run is `_ok` -/\n"
+            "def %s_rec_ok : %s → Bool\n  | 0, %s => %s_ok %s\n  | fuel + 1, %s => %s_ok %s && (let r := %s %s; if r.1 = 2 then %s_rec_ok fuel %s else true)\n"
+            "-- end of the unfolding of %s\n") % (
+        k["fn"], k["fn"], name, tys, lean_ret, pats, name, args, pats, name, args, name, nxt,
+        name, tys, pats, name, args, pats, name, args, name, args, name, nxt, name)
 
 
 PRELUDE = '''/-
@@ -3378,7 +4102,13 @@ def beU32 (body : List Int) (k : Nat) : Int :=
   body.getD k 0 * 16777216 + body.getD (k + 1) 0 * 65536 + body.getD (k + 2) 0 * 256 + body.getD (k + 3) 0
 
 '''
-GROUP_PRELUDE = {"Parsers": BE}
+FIRSTIDX = '''/-- `s.iter().position(|&b| b == v)`: the index of the first element equal to `v` -/
+def firstIndexOf (v : Int) : List Int → Option Int
+  | [] => none
+  | x :: xs => if x = v then some 0 else (firstIndexOf v xs).map (· + 1)
+
+'''
+GROUP_PRELUDE = {"Parsers": BE, "Text": FIRSTIDX}
 GROUP_IMPORTS = {"ParsersApng": ["Parsers"]}          # the readers beU8 / beU16 / beU32
 
 
@@ -3392,7 +4122,9 @@ def kept_block(old_text, name):
     # the doc comment matched may belong to an earlier kernel when `name` is not the first: cut at the last doc start
     blk = m.group(0)
     i = blk.rfind("/-- `", 0, blk.find("\ndef %s " % name) + 1)
-    return blk[i:] if i >= 0 else blk
+    blk = blk[i:] if i >= 0 else blk
+    m2 = re.search(r"\n/-- the recursion of [^\n]*\ndef %s_rec .*?-- end of the unfolding of %s\n" % (re.escape(name), re.escape(name)), old_text, re.S)
+    return blk + (m2.group(0) if m2 else "")
 
 
 def main():
